@@ -795,6 +795,8 @@ impl std::task::Wake for CountWake {
 
 pub struct Ctx {
     pub fdslots: [Option<(OwnedRaw, Option<OwnedRaw>)>; 4],
+    /// the eventfds behind FdKind::Shared (closed by `SharedFds::drop` after everything else)
+    pub shared: Rc<SharedFds>,
     pub asyncs: Vec<WAsync>,
     pub sh: Sh,
     pub handle: Option<LoopHandle<'static, Ctx>>,
@@ -811,6 +813,19 @@ pub struct Ctx {
     pub callbacks: u32,
     pub exhausted: bool,
     pub tasks: Vec<WTask>,
+}
+
+pub struct SharedFds(pub RefCell<[Option<RawFd>; 2]>);
+
+impl Drop for SharedFds {
+    fn drop(&mut self) {
+        for fd in self.0.borrow_mut().iter_mut() {
+            if let Some(fd) = fd.take() {
+                kernel::no_close_remove(fd);
+                kernel::close(fd);
+            }
+        }
+    }
 }
 
 /// callbacks per case after which the case is abandoned (generated histories stay far below)
@@ -1083,6 +1098,16 @@ impl Ctx {
                     None => {
                         let (own, peer) = match fdkind {
                             FdKind::EventFd => (OwnedRaw(kernel::eventfd_nonblock()), None),
+                            FdKind::Shared(k) => {
+                                let mut sl = self.shared.0.borrow_mut();
+                                let slot = &mut sl[(*k % 2) as usize];
+                                if slot.is_none() {
+                                    let fd = kernel::eventfd_nonblock();
+                                    kernel::no_close_add(fd);
+                                    *slot = Some(fd);
+                                }
+                                (OwnedRaw(slot.unwrap()), None)
+                            }
                             FdKind::Sock => {
                                 let (a, b) = kernel::socketpair();
                                 (OwnedRaw(a), Some(OwnedRaw(b)))
@@ -1463,7 +1488,7 @@ impl Ctx {
                 if let Handles::Gen { fd, fdkind, peer, .. } = &self.srcs[id].h {
                     let n = *n as u32 + 1;
                     let wrote = match fdkind {
-                        FdKind::EventFd => kernel::eventfd_write(*fd, n as u64),
+                        FdKind::EventFd | FdKind::Shared(_) => kernel::eventfd_write(*fd, n as u64),
                         FdKind::Sock | FdKind::PipeR => match peer {
                             Some(p) => kernel::raw_write(p.0, &vec![0x5a; n as usize]) > 0,
                             None => false,
@@ -1486,7 +1511,7 @@ impl Ctx {
                 if let Handles::Gen { fd, fdkind, .. } = &self.srcs[id].h {
                     let n = *n as u32 + 1;
                     let got = match fdkind {
-                        FdKind::EventFd => kernel::eventfd_read(*fd).is_some(),
+                        FdKind::EventFd | FdKind::Shared(_) => kernel::eventfd_read(*fd).is_some(),
                         FdKind::Sock | FdKind::PipeR => {
                             let mut buf = vec![0u8; n as usize];
                             kernel::raw_read(*fd, &mut buf) > 0
@@ -1958,11 +1983,14 @@ pub fn run_history(case: &HistCase, opts: Opts) -> Vec<Ev> {
     crate::panics::clear();
     let sh = Shared::new();
     sh.fault_at.set(opts.fault_at);
+    // declared first, dropped last: the shared eventfds outlive every wrapper around them
+    let shared = Rc::new(SharedFds(RefCell::new([None, None])));
     let mut el: EventLoop<'static, Ctx> = EventLoop::try_new().expect("EventLoop::try_new");
     let epfd = el.as_raw_fd();
     let epoll_each = opts.epoll_each_step;
     let mut ctx = Ctx {
         fdslots: [None, None, None, None],
+        shared: shared.clone(),
         asyncs: Vec::new(),
         sh: sh.clone(),
         handle: Some(el.handle()),
